@@ -280,7 +280,8 @@ func pxUnits(prefix, tier, checks string, bound int) []Unit {
 func init() {
 	scenarioSets["C01"] = func(tier string) []*Scenario { return programScenarios("C01", pxPrograms(tier, "layers"), 1) }
 	scenarioSets["C17"] = func(tier string) []*Scenario {
-		return append(hedgeTimingScenarios("C17/hedge-timing", tier, "stats"), programScenarios("C17", pxPrograms(tier, "layers,stats"), 1)...)
+		scs := append(hedgeTimingScenarios("C17/hedge-timing", tier, "stats"), c17ListenerCancelScenarios(tier)...)
+		return append(scs, programScenarios("C17", pxPrograms(tier, "layers,stats"), 1)...)
 	}
 	register(&CheckDef{
 		Property:  "C01",
@@ -315,7 +316,8 @@ func init() {
 		Assume: []string{"IsRetry is documented as Attempts > 1 and IsFirstAttempt as Attempts == 1 on the shared counter", "LastResult/LastError are compared at points where the observing attempt is not cancelled"},
 		Budget: map[string]time.Duration{"quick": 150 * time.Second, "thorough": 25 * time.Minute},
 		Units: func(tier string) []Unit {
-			return append(pxUnits("C17", tier, "layers,stats", 1), chunkUnits("C17", hedgeTimingScenarios("C17/hedge-timing", tier, "stats"), 40)...)
+			us := append(pxUnits("C17", tier, "layers,stats", 1), chunkUnits("C17", hedgeTimingScenarios("C17/hedge-timing", tier, "stats"), 40)...)
+			return append(us, chunkUnits("C17", c17ListenerCancelScenarios(tier), 8)...)
 		},
 	})
 }
